@@ -91,13 +91,14 @@ func (fr *Frame) cutLoop(b *ssa.BasicBlock, preds []*ssa.BasicBlock, ins []edgeI
 			ctx := fr.specCtx(st.heap, b)
 			ctx.override = entryVals
 			g := ctx.evalBool(c.Expr)
-			e.oblige(fmt.Sprintf("%s#%s:inv-init:%d", funcKey(e.top.fn), label, i+1), "inv-init", st.reach, g, fr.pos(b.Instrs[0].Pos()), "loop invariant on entry: "+c.Src, c.Tags)
+			e.oblige(fmt.Sprintf("%s#%s:inv-init:%d", e.topKey(), label, i+1), "inv-init", st.reach, g, fr.pos(b.Instrs[0].Pos()), "loop invariant on entry: "+c.Src, c.Tags)
 		}
 	}
 	// 2. dry run: which heap arrays does the body write?
 	serial0 := e.serial
 	outerDirty := st.heap.dirty
 	dry := fr.dryRun(li, st, phis)
+	fr.curBlock = b
 	// 3. havoc
 	h := st.heap.clone()
 	h.dirty = map[string]int{}
@@ -136,6 +137,10 @@ func (fr *Frame) cutLoop(b *ssa.BasicBlock, preds []*ssa.BasicBlock, ins []edgeI
 		}
 		fr.env[phi] = v
 		e.assume("true", e.typeFacts(v, h))
+		if phi.Comment == "rangeindex" && v.K == kScalar {
+			// go/ssa lowers "for i := range s" to an index starting at -1 and incremented at the loop head
+			e.assume("true", sx(">=", v.S, "(- 1)"))
+		}
 	}
 	st.heap = h
 	li.heapIn = h
@@ -267,7 +272,7 @@ func (fr *Frame) backEdge(from, to *ssa.BasicBlock, reach string, h *Heap) {
 		ctx := fr.specCtx(h, to)
 		ctx.override = over
 		g := ctx.evalBool(c.Expr)
-		e.oblige(fmt.Sprintf("%s#%s:inv-keep:%d@b%d", funcKey(e.top.fn), label, i+1, from.Index), "inv-keep", reach, g, fr.pos(to.Instrs[0].Pos()), "loop invariant preserved: "+c.Src, c.Tags)
+		e.oblige(fmt.Sprintf("%s#%s:inv-keep:%d@b%d", e.topKey(), label, i+1, from.Index), "inv-keep", reach, g, fr.pos(to.Instrs[0].Pos()), "loop invariant preserved: "+c.Src, c.Tags)
 	}
 }
 
